@@ -2,8 +2,8 @@ SPECIFICATION Spec
 CONSTANTS
   MaxFiles = 2
   NP = 7
-  NC = 3
-  NPol = 2
+  NC = 4
+  NPol = 4
   InitCuts = {4}
   Canon = TRUE
   Older = "lt"
